@@ -160,4 +160,53 @@ theorem ProvTie_scan (P : Project) (g : G) (w : World) (pn : List Nat) (t : Nat)
       cases hst : stateOf P w v <;> simp [ih]
     all_goals (generalize hasChanged w t v _ = c; cases c <;> simp [ih])
 
+/-- `_is_condition_true` (the re-creation of the DAG: which tasks "are going to be skipped") reads the condition of a `skipif` mark
+as the regular skip logic of skipping.py does, for every shape of the mark the latter accepts: one positional argument
+(`skipif(False, reason=…)`, `skipif(0, …)`) or the keyword (`skipif(condition=False, …)`). A mark whose condition is false is
+false for both, so its task and the descendants of its task are not marked to be skipped. -/
+theorem ProvTie_skipif (m : SMark) (b : Bool) (h : skipifBind skipifParam m = some b) :
+    condEval skipifReadRecreate m = some b := by
+  obtain ⟨args, kw⟩ := m
+  simp only [skipifBind, skipifParam] at h
+  simp only [skipifReadRecreate, condEval]
+  match args, hk : kwLookup "condition" kw, h with
+  | [a], none, h => simpa using h
+  | [], some v, h => simpa [hk] using h
+
+/-- The element of the tuple `skipif(…)` returns that the setup hook looks at is the condition; several marks are combined in the
+same way on both sides (any). -/
+theorem ProvTie_skipif_combine :
+    skipifTupleIndex = skipifReadIndex ∧ skipifCombineRecreate = skipifCombineSetup ∧ skipifCombineSetup = "any" := by decide
+
+/-- Several `skipif` marks on one task: if the regular logic can evaluate all of them, the re-creation of the DAG takes the task as
+"going to be skipped" exactly when the regular logic skips it; in particular not when every condition is false. -/
+theorem ProvTie_skipif_marks (ms : List SMark) (bs : List Bool) (h : ms.map (skipifBind skipifParam) = bs.map some) :
+    ms.map (condEval skipifReadRecreate) = bs.map some := by
+  induction ms generalizing bs with
+  | nil => cases bs <;> simp_all
+  | cons m ms ih =>
+    cases bs with
+    | nil => simp at h
+    | cons b bs =>
+      simp only [List.map_cons, List.cons.injEq] at h ⊢
+      exact ⟨ProvTie_skipif m b h.1, ih bs h.2⟩
+
+/-- `pytask_collect_node` joins a relative `root_dir` to the directory of the task's module and normalises the RESULT (an absolute
+one is normalised): the node's root_dir — the first signature field, `ProvTie_signature` — is the directory the declaration denotes. -/
+theorem ProvTie_rootdir (d : List Comp) (p : RPath) : rootDirGen d p = rootDirRef d p := by
+  obtain ⟨a, cs⟩ := p
+  cases a <;> simp [rootDirGen, rootDirRef, rootRun, rootStep, RPath.norm, rootDirRelative, rootDirAbsolute]
+
+/-- Two declarations that denote one directory — from modules in different directories, absolute or relative, with `./` or `..` —
+get the same root_dir, hence (same pattern) the same signature: producer and consumer share one node. -/
+theorem ProvTie_rootdir_same (d₁ d₂ : List Comp) (p₁ p₂ : RPath) (h : rootDirRef d₁ p₁ = rootDirRef d₂ p₂) :
+    rootDirGen d₁ p₁ = rootDirGen d₂ p₂ := by
+  rw [ProvTie_rootdir, ProvTie_rootdir, h]
+
+/-- `/proj/sub` + `../out`, `/proj` + `out`, `/proj` + `./out`, `/proj` + `x/../out` and the absolute `/proj/out`. -/
+example : rootDirGen [.name 0, .name 1] ⟨false, [.up, .name 2]⟩ = rootDirGen [.name 0] ⟨false, [.name 2]⟩
+    ∧ rootDirGen [.name 0] ⟨false, [.dot, .name 2]⟩ = rootDirGen [.name 0] ⟨false, [.name 2]⟩
+    ∧ rootDirGen [.name 0] ⟨false, [.name 3, .up, .name 2]⟩ = rootDirGen [.name 0] ⟨true, [.name 0, .name 2]⟩
+    ∧ rootDirGen [.name 0, .name 1] ⟨false, [.up, .name 2]⟩ = ⟨true, [.name 0, .name 2]⟩ := by decide
+
 end Pytask
